@@ -1359,3 +1359,8 @@ package engine
 //@       Term.Compare(Compound.Functor(c), Compound.Functor(r as Compound), env) == 0 ==>
 //@       exists m int :: 0 <= m && m < Compound.Arity(c) && result == Term.Compare(Compound.Arg(c, m), Compound.Arg(r as Compound, m), env) &&
 //@           forall j int :: 0 <= j && j < m ==> Term.Compare(Compound.Arg(c, j), Compound.Arg(r as Compound, j), env) == 0
+
+//@ func KeySort
+//@   property C08
+//@   nosafety
+//@   at-call sort.SliceStable requires[keysort-is-a-stable-sort] true
